@@ -35,7 +35,7 @@ def _items(b):
 
 
 @unit("C35", covers=[(DEX, "read_null_terminated_string")], params=[{"n": n} for n in (0, 1, 127, 128, 129, 257)], samples=20,
-      timeout_ms=60000)
+      timeout_ms=60000, terminates=True)
 def unterminated_string(U, n):
     """no NUL anywhere: the reader must still come back"""
     m = U.mod(DEX)
@@ -51,7 +51,7 @@ def unterminated_string(U, n):
 
 
 @unit("C35", covers=[(AXML, "ARSCHeader.__init__")], params=[{"n": n, "pos": p} for n, p in ((8, 0), (10, 0), (12, 1), (14, 2), (9, 1))],
-      samples=60, max_paths=20000)
+      samples=60, max_paths=20000, terminates=True)
 def arsc_header_skip_loop(U, n, pos):
     """dummy-data skip loop: every content of a short buffer, from position 0 and from inside"""
     m = U.mod(AXML)
@@ -71,7 +71,7 @@ class _CMD:
 
 
 @unit("C35", covers=[(DEX, "DebugInfoItem.__init__")], params=[{"n": n} for n in range(0, 6)], samples=60, max_paths=60000,
-      timeout_ms=60000)
+      timeout_ms=60000, terminates=True)
 def debug_info_loop(U, n):
     m = U.mod(DEX)
     b = U.bytes("data", n)
@@ -136,7 +136,7 @@ def _parse(kind, data, mods):
       level="bounded", samples=12,
       note="truncations, 1..4 byte overwrites, huge 32-bit counts and NUL-free prefixes of Test.dex, AndroidManifest.xml, "
            "resources.arsc and TestActivity.apk; each parse under the harness time limit (20 s); any exception is acceptable, a "
-           "timeout is not")
+           "timeout is not", terminates=True)
 def whole_parsers(U, kind, mut):
     global _SEEDS
     if _SEEDS is None:
